@@ -68,6 +68,8 @@ type smaWorld struct {
 	reports     int
 	cfgAddrs    []string
 	keptReports []*retained
+	auditDone   int
+	audited     []*retained // every message, as the wrapper around the state machine saw it arrive
 	hsc         <-chan diam.Conn
 	stallRun    bool // one CEA write of this run may stall while the other connection goes on
 }
@@ -200,7 +202,9 @@ func newSmaWorld(e *Env, prop string) *smaWorld {
 		}
 		w.drainReports()
 	}
-	srv := &diam.Server{Handler: w.mach}
+	// the application wraps the state machine in a handler of its own that keeps every message
+	// (audit log); what the state machine then does with a message must not change it
+	srv := &diam.Server{Handler: smaAudit{w}}
 	if t.Chance(1, 3) {
 		srv.WriteTimeout = time.Second // (no fake time passes in this world: it never expires)
 		e.Probe("server-write-timeout-set")
@@ -225,6 +229,21 @@ func (w *smaWorld) drainReports() {
 		}
 	}
 }
+
+// smaAudit is the application's wrapper around the state machine.
+type smaAudit struct{ w *smaWorld }
+
+func (a smaAudit) ServeDIAM(c diam.Conn, m *diam.Message) {
+	w := a.w
+	r := &retained{src: "audit", m: m, fp: fingerprint(m)}
+	w.mu.Lock()
+	r.index = len(w.audited)
+	w.audited = append(w.audited, r)
+	w.mu.Unlock()
+	w.mach.ServeDIAM(c, m)
+}
+func (a smaAudit) Error(er *diam.ErrorReport)             { a.w.mach.Error(er) }
+func (a smaAudit) ErrorReports() <-chan *diam.ErrorReport { return a.w.mach.ErrorReports() }
 
 // checkReportedMessage: a message handed out through an error report is a message the
 // reader returned; it must still be what the peer sent (C06: nothing the library does
@@ -265,6 +284,28 @@ func (w *smaWorld) checkReportedMessage(m *diam.Message) {
 
 // checkKept re-fingerprints every message obtained through an error report (C06).
 func (w *smaWorld) checkKept(when string) bool {
+	// each message is looked at again right after the step that handled it, and all of them
+	// once more when the run ends
+	w.mu.Lock()
+	from := w.auditDone
+	if when == "at the end of the run" {
+		from = 0
+	}
+	audited := append([]*retained{}, w.audited[from:]...)
+	w.auditDone = len(w.audited)
+	w.mu.Unlock()
+	for _, r := range audited {
+		if now := fingerprint(r.m); now != r.fp {
+			i := 0
+			for i < len(now) && i < len(r.fp) && now[i] == r.fp[i] {
+				i++
+			}
+			lo := max(0, i-40)
+			w.e.Fail("C06/retained-message-changed/state-machine", "message #%d, kept by a handler wrapped around the state machine, changed %s: was ...%s, now ...%s", r.index, when,
+				short(r.fp[lo:min(len(r.fp), i+60)], 120), short(now[lo:min(len(now), i+60)], 120))
+			return false
+		}
+	}
 	for _, r := range w.keptReports {
 		if now := fingerprint(r.m); now != r.fp {
 			w.e.Fail("C06/retained-message-changed/error-report", "message #%d handed out through an ErrorReport changed %s", r.index, when)
@@ -876,6 +917,9 @@ func containsStr(l []string, s string) bool {
 }
 
 func (w *smaWorld) teardown() {
+	if !w.e.Failed() {
+		w.checkKept("at the end of the run")
+	}
 	if w.hsc != nil {
 		// now the application gets round to its notifications (lets a sender that waits go on)
 		hsc := w.hsc
